@@ -642,7 +642,13 @@ func tokenStreams(text string) (sl, mp []string) {
 	return
 }
 
-func leafOf(v reflect.Value, path []string) reflect.Value {
+func leafOf(v reflect.Value, path []string) (leaf reflect.Value) {
+	// FieldByName panics when the name is promoted through a nil embedded pointer: such a leaf is unset
+	defer func() {
+		if recover() != nil {
+			leaf = reflect.Value{}
+		}
+	}()
 	for _, p := range path {
 		for v.Kind() == reflect.Ptr {
 			if v.IsNil() {
